@@ -103,4 +103,33 @@ theorem fastcgi_underscore_twin_won_in_old_code :
         (fromWire [(b!"X_Forwarded_For", b!"6.6.6.6")])).map (fun h => (envCandidatesOld h envXFF, envCandidates h envXFF)) =
       some ([b!"1.2.3.4", b!"6.6.6.6"], [b!"1.2.3.4"]) := by decide
 
+/-! ### templates' httpInclude: the virtual sub-request is attributed from the outer peer's headers
+
+`funcHTTPInclude` sends a virtual request with `RemoteAddr = "127.0.0.1:10000"` and a CLONE of the outer
+request's header through `server.ServeHTTP`.  When loopback is a trusted proxy (`private_ranges` contains
+127.0.0.1/8) `determineTrustedProxy` treats that virtual request as coming from a trusted proxy and takes
+its client address from headers which the — untrusted — outer peer wrote.  Reproduced on the real code;
+protocol line in `Driver.witnessLines`. -/
+
+def toyNetL : Net Bytes Bytes where
+  parseAddr := fun s => if [b!"127.0.0.1", b!"8.8.8.8", b!"6.6.6.6"].contains s then some s else none
+  contains := fun p a => p.isPrefixOf a
+  toString := fun a => a
+
+/-- `trusted_proxies 127.0.0.1` -/
+def witInc : Cfg Bytes :=
+  { srvTrusted := some [b!"127."], clientIPHeaders := none, strict := 0, handlerTrusted := [],
+    omitXFF := false, omitXFP := false, omitXFH := false }
+
+/-- FULL statement (fails): for an outer peer that is not a trusted proxy, what the included sub-request
+    is attributed does not depend on the outer request's headers. -/
+theorem include_attribution_full_fails :
+    ∃ (cfg : Cfg Bytes) (c : Conn) (w w' : List (Bytes × Bytes)),
+      serverTrusts toyNetL cfg c = false ∧
+      (serveInclude toyNetL cfg c w).clientIP ≠ (serveInclude toyNetL cfg c w').clientIP :=
+  ⟨witInc, ⟨b!"8.8.8.8:1", false, b!"a", false⟩, [(b!"X-Forwarded-For", b!"6.6.6.6")], [], by decide, by decide⟩
+
+example : (serveInclude toyNetL witInc ⟨b!"8.8.8.8:1", false, b!"a", false⟩ [(b!"X-Forwarded-For", b!"6.6.6.6")]).clientIP = b!"6.6.6.6" ∧
+    (serve toyNetL witInc ⟨b!"8.8.8.8:1", false, b!"a", false⟩ [(b!"X-Forwarded-For", b!"6.6.6.6")]).clientIP = b!"8.8.8.8" := by decide
+
 end CaddyModel.C10
